@@ -31,6 +31,7 @@ from __future__ import annotations
 import contextlib
 import json
 import logging
+import os
 import types
 from typing import Any, Protocol
 
@@ -75,6 +76,7 @@ ASSUMPTIONS = [
 ]
 
 IDLE_TIMEOUT = 30.0
+_DEV_CAP = int(os.environ.get("VF_DEV_CAP", "0")) or None  # development only: cap schedules per config (reported as a cap)
 _W: "World | None" = None  # world of the execution in flight (read by the fakes)
 
 
@@ -411,7 +413,7 @@ def run_a(ctx: Ctx) -> None:
             st = S.explore(
                 ctx, make_setup(cfg), lambda x, cfg=cfg: oracle_a(ctx, cfg, x, ctx.tier), bound=cfg["bound"],
                 label="a:" + json.dumps(cfg, sort_keys=True), trace=TRACE if cfg["trace"] else None,
-                env_cost=1 if ctx.quick else 0,
+                env_cost=1 if ctx.quick else 0, max_execs=_DEV_CAP,
             )
             ctx.extra["a_schedules"] += st["schedules"]
             ctx.extra["a_configs"] += 1
